@@ -102,33 +102,34 @@ type failure struct {
 
 // Rec collects the evidence of one run of one check package.
 type Rec struct {
-	mu         sync.Mutex
-	ID         string
-	Rule       string
-	Level      string
-	Tier       string
-	Seed       int64
-	Shard      int
-	Shards     int
-	Root       string // /verif
-	start      time.Time
-	evals      int64
-	distinct   map[uint64]struct{}
-	classes    map[string]int64
-	excluded   map[string]int64
-	rejected   map[string]int64
-	samples    []any
-	sampleSeen int64
-	extra      map[string]any
-	assume     []string
-	exhaustive *bool
-	fails      map[string]*failure // per test name: last failing case
-	failOrder  []string
-	infra      []string
-	known      []Finding
-	knownHits  map[string]int64
-	violations int
-	maxSamples int
+	mu          sync.Mutex
+	ID          string
+	Rule        string
+	Level       string
+	Tier        string
+	Seed        int64
+	Shard       int
+	Shards      int
+	Root        string // /verif
+	start       time.Time
+	evals       int64
+	distinct    map[uint64]struct{}
+	classes     map[string]int64
+	excluded    map[string]int64
+	rejected    map[string]int64
+	samples     []any
+	sampleSeen  int64
+	extra       map[string]any
+	assume      []string
+	exhaustive  *bool
+	fails       map[string]*failure // per test name: last failing case
+	failOrder   []string
+	infra       []string
+	known       []Finding
+	knownHits   map[string]int64
+	violations  int
+	maxSamples  int
+	lastFailKey string
 }
 
 // R is the package-level recorder, initialised by Main.
@@ -178,18 +179,24 @@ func newRec(id, level, rule string) *Rec {
 }
 
 func (r *Rec) loadKnown() {
-	data, err := os.ReadFile(filepath.Join(r.Root, "known_findings.json"))
-	if err != nil {
-		return
-	}
-	var all []Finding
-	if err := json.Unmarshal(data, &all); err != nil {
-		r.infra = append(r.infra, "known_findings.json: "+err.Error())
-		return
-	}
-	for _, f := range all {
-		if f.Property == r.ID {
-			r.known = append(r.known, f)
+	files := []string{filepath.Join(r.Root, "known_findings.json")}
+	more, _ := filepath.Glob(filepath.Join(r.Root, "known_findings.d", "*.json"))
+	sort.Strings(more)
+	files = append(files, more...)
+	for _, file := range files {
+		data, err := os.ReadFile(file)
+		if err != nil {
+			continue
+		}
+		var all []Finding
+		if err := json.Unmarshal(data, &all); err != nil {
+			r.infra = append(r.infra, filepath.Base(file)+": "+err.Error())
+			continue
+		}
+		for _, f := range all {
+			if f.Property == r.ID {
+				r.known = append(r.known, f)
+			}
 		}
 	}
 }
@@ -388,11 +395,19 @@ func (r *Rec) Fail(name string, c any, v *Verdict) {
 	if err != nil {
 		js = []byte(fmt.Sprintf("%q", fmt.Sprint(c)))
 	}
+	// one replay per (oracle, class); rapid re-runs the shrunk case last, so later = smaller
+	// within one test, and across tests the shorter document wins.
+	key := name + "\x00" + v.Class
 	r.mu.Lock()
-	if _, ok := r.fails[name]; !ok {
-		r.failOrder = append(r.failOrder, name)
+	if old, ok := r.fails[key]; !ok {
+		r.failOrder = append(r.failOrder, key)
+	} else if r.lastFailKey != key && len(old.caseJS) <= len(js) {
+		r.lastFailKey = key
+		r.mu.Unlock()
+		return
 	}
-	r.fails[name] = &failure{test: name, verdict: *v, caseJS: js}
+	r.lastFailKey = key
+	r.fails[key] = &failure{test: name, verdict: *v, caseJS: js}
 	r.mu.Unlock()
 }
 
@@ -448,6 +463,7 @@ func Example[V any](r *Rec, g *rapid.Generator[V], sub, i int) V {
 func Main(m *testing.M, id, level, rule string) {
 	R = newRec(id, level, rule)
 	flag.Parse()
+	initCurrent()
 	if p := os.Getenv("VK_REPLAY"); p != "" {
 		os.Exit(R.replayOne(p))
 	}
@@ -467,7 +483,8 @@ func (r *Rec) finish(code int) int {
 		sum := sha256.Sum256(append([]byte(f.verdict.Class), f.caseJS...))
 		dir := filepath.Join(r.Root, "replays", r.ID)
 		os.MkdirAll(dir, 0o755)
-		base := sanitize(name) + "-" + hex.EncodeToString(sum[:6]) + ".json"
+		name = f.test
+		base := sanitize(name) + "-" + sanitize(f.verdict.Class) + "-" + hex.EncodeToString(sum[:4]) + ".json"
 		path := filepath.Join(dir, base)
 		doc := map[string]any{"property": r.ID, "test": name, "verdict": f.verdict, "case": json.RawMessage(f.caseJS),
 			"seed": r.Seed, "tier": r.Tier, "replay": fmt.Sprintf("./check %s --replay replays/%s/%s", r.ID, r.ID, base)}
